@@ -133,6 +133,7 @@ def run(ctx):
 EXPECTED = {
     "nodes_created_first": True,
     "draw": "ln(1 - gen::<f64>())",
+    "skip_quotient": "ln(1 - U) / ln(1 - p)",
     "cursor_advance": "saturating",
     "plain_arithmetic_on_saturated_cursor": None,
     "carry_cursor_op": "Sub",
@@ -174,6 +175,22 @@ def kernel_features(prog, flows, k):
         if d[0] == "binop" and d[1] == "Sub" and const_f(d[2]) == 1.0 and d[3][0] == "call" and d[3][1].endswith("Rng::gen"):
             draw = "ln(1 - gen::<f64>())"
     f["draw"] = draw
+    # the skip length: ln(1 - U) / ln(1 - p), the inverse geometric CDF -- the divisor is the logarithm of the probability
+    # that a slot stays EMPTY
+    quot = None
+    pf = [k.local_name(i) for i in range(1, k.arg_count + 1) if k.local_ty(i) == "f64" and k.local_name(i)]
+    for s in k.stmts():
+        if s.k == "assign" and s.rv.k == "binop" and s.rv.j["op"] == "Div" and s.lhs.ty == "f64":
+            num = panic.norm(panic.expand_names(fl, panic.norm(fl.describe(s.rv.ops[0], depth=8))))
+            den = panic.norm(panic.expand_names(fl, panic.norm(fl.describe(s.rv.ops[1], depth=8))))
+
+            def is_ln_one_minus(d, what):
+                return isinstance(d, tuple) and d[0] == "call" and d[1].endswith("f64::ln") and d[2] and d[2][0][0] == "binop" and d[2][0][1] == "Sub" and const_f(d[2][0][2]) == 1.0 and what(d[2][0][3])
+
+            ok_num = is_ln_one_minus(num, lambda x: x[0] == "call" and x[1].endswith("Rng::gen"))
+            ok_den = is_ln_one_minus(den, lambda x: x[0] == "place" and x[1] in pf)
+            quot = "ln(1 - U) / ln(1 - p)" if (ok_num and ok_den) else "%s / %s" % (fmt_desc(num)[:60], fmt_desc(den)[:60])
+    f["skip_quotient"] = quot
     # cursor: the i32 local that receives the float-derived skip
     cast_locals = [s.lhs.local for s in k.stmts() if s.k == "assign" and s.rv.k == "cast" and s.rv.j["ck"] == "FloatToInt"]
     cursor = None
